@@ -14,7 +14,7 @@ from keyshared import (ec, bip32, base58, NETWORKS, NETKEYS, N, P, H, on_backend
                        show_pub, spec_tokens, spec_key_tokens, mk_hd, mk_key, opt, rbytes)
 
 PROP = "C10"
-MODS = ["EmbitModel.Props.C10"]
+MODS = ["EmbitModel.Props.C10", "EmbitModel.Props.C10X"]
 
 
 # ec_pubkey_parse of the pure-Python backend accepts coordinates >= p (C08's finding D10)
@@ -137,6 +137,17 @@ def sec_block(c, n):
             return "ok %s %s" % (show_pub(k), hx(s.read()))
         expect_backends(c, "sec.read " + hx(sec + rest), on_backends(rd), {"bytes": hx(sec + rest)}, proven=False)
         c.count(("sec.read", sec, rest), nontrivial=True)
+
+        # what was read re-encodes to the consumed prefix of the stream (C10X.sec_read_from_sound)
+        def rd_sound():
+            from io import BytesIO
+            st = BytesIO(sec + rest)
+            k = ec.PublicKey.read_from(st)
+            return k.sec() + st.read() == sec + rest
+        for name, ok in on_backends(rd_sound):
+            if ok is not True:
+                c.fail("PublicKey.read_from: encoding of the key + unread rest is not the stream",
+                       {"bytes": hx(sec + rest), "backend": name, "op": "sec.read.sound", "got": str(ok)})
     # unstructured bytes
     for _ in range(4 * n):
         ln = c.rng.choice([0, 1, 32, 33, 33, 34, 64, 65, 65, 66])
@@ -182,6 +193,15 @@ def xonly_block(c, n):
             expect_backends(c, "sec.fromxonly " + hx(data), ans, {"data": hx(data), "klass": kl})
             if len(data) != 32 or not ks.is_on_curve_x(int.from_bytes(data, "big")):
                 must_reject(c, ans, "from_xonly accepted an invalid X coordinate (%s)" % kl, {"op": "fromxonly", "data": hx(data), "klass": kl})
+            # whatever is accepted is the even-Y compressed key with exactly this x-only encoding (C10X.from_xonly_sound)
+            for name, mod in BACKENDS:
+                with ks.backend(mod):
+                    k = guarded(lambda: ec.PublicKey.from_xonly(data))
+                    if isinstance(k, str):
+                        continue
+                    if k.xonly() != data or not k.compressed or k.sec()[0] != 2:
+                        c.fail("from_xonly: accepted key does not re-encode to the input / is not the even-Y key",
+                               {"op": "fromxonly.sound", "data": hx(data), "backend": name, "got": hx(k.sec())})
     c.flush()
 
 
@@ -228,6 +248,15 @@ def wif_dec_case(c, text, klass, valid=None, info=None):
     expect_backends(c, "wif.dec " + hx(b), answers, info)
     if valid is False:
         must_reject(c, answers, "invalid WIF accepted (%s)" % klass, dict(info, op="wif.dec"))
+    # whatever is accepted re-encodes to the same text (C10X.wif_parse_sound)
+    for name, mod in BACKENDS:
+        with ks.backend(mod):
+            k = guarded(lambda: ec.PrivateKey.from_wif(text))
+            if isinstance(k, str):
+                continue
+            back = guarded(lambda: k.wif())
+            if back != text:
+                c.fail("accepted WIF does not re-encode to itself", dict(info, backend=name, op="wif.reencode", got=str(back)[:120]))
 
 
 def b58_mutate(rng, text):
